@@ -411,9 +411,10 @@ class C10(PropertyCheck):
                   "by a strict OpenQASM 2.0 recogniser written from the language paper, passes the standard's static "
                   "semantics, and denotes exactly the circuit's sequence of gate calls; its full expansion to U/CX has, on every "
                   "register size, the circuit's unitary (denG / denX of the central embedding algebra) up to one global phase "
-                  "(export_den, by naturality of the expansion + localisation); for circuits whose gates need no emitted "
-                  "definition the importer model of C04 re-imports the text to a gate list with the same unitary up to one "
-                  "global phase (roundtrip_den_partial); every auxiliary gate definition the "
+                  "(export_den, by naturality of the expansion + localisation); for EVERY circuit of the class, emitted gate "
+                  "definitions included, the importer model of C04 re-imports the text (it is a program of C04's class W1) to an "
+                  "operation list of library gates and user gates with the same unitary up to one global phase (roundtrip_den; "
+                  "roundtrip_den_partial for the base table); every auxiliary gate definition the "
                   "exporter emits denotes the documented matrix up to one global phase (matrix identities over C); circuits "
                   "with a non-exportable gate are refused. The model follows the tree (flag exportPadsExponent regenerated "
                   "from the source): where _qasm_str prints its parameters with _qasm_real (fix C10-3), the printed text of "
